@@ -662,6 +662,18 @@ func c12DirectedSeeds() [][]byte {
 		c12Cat(opr("TOP1"), []byte{0x5b, 0x88}, []byte("REG0"), str("FOOF"), str("BAR"), str("BAZ")),                            // DataTableRegion strings
 		c12Cat([]byte{0x5b, 0x82}, c12PkgLen(4+len(nm("_HID", str("PNP0A03"))), 1), []byte("DEV0"), nm("_HID", str("PNP0A03"))), // string last inside a Device
 	}
+	// Path-prefixed declarations over the name alphabet {A___, B___} next to scoped objects of the same
+	// names, one character away from "the path leads back into the object itself" (the complete family
+	// is enumerated by TLC: specs/aml/AmlRobustShapes.tla): seeds for the single-mutation plans.
+	a, b := []byte("A___"), []byte("B___")
+	dev := func(n []byte, body ...[]byte) []byte { return c12Pkg([]byte{0x5b, 0x82}, 1, n, c12Cat(body...)) }
+	atEnd = append(atEnd,
+		c12Cat([]byte{0x08, 0x2f, 0x03}, b, b, a, dev(b)),                                       // Name(B.B.A) adopting Device(B)
+		c12Cat([]byte{0x5b, 0x80, 0x2f, 0x03}, a, b, a, []byte{0x00}, dev(a), []byte{1}),        // OperationRegion(A.B.A) adopting Device(A)
+		c12Cat(dev(a, dev(b)), c12Pkg([]byte{0x14}, 1, []byte{0x2f, 0x03}, a, b, b, []byte{0})), // Method(A.B.B) into a grandchild scope
+		c12Cat(dev(a), c12Pkg([]byte{0x5b, 0x82}, 1, []byte{'\\', 0x2e}, a, b)),                 // Device(\A.B) into a sibling's scope
+		c12Cat([]byte{0x5b, 0x01, 0x2e}, a, b, []byte{0}, dev(b)),                               // Mutex(A.B) then Device(B)
+	)
 	return append(atEnd, [][]byte{
 		c12Cat(nm("BUF0", buf(inner, 1)), tail),
 		c12Cat(nm("BUF1", buf(pkg(1, buf([]byte{0x0a, 1}, 7)), 2, 3)), tail),
